@@ -1,7 +1,7 @@
 SPECIFICATION Spec
 CONSTANTS ChainUpdatesCtx = FALSE
  ChainMode = "few"
-INVARIANT IntermediateInvisible
+PROPERTY IntermediateInvisible
 INVARIANT DataOfCausingEvent
 INVARIANT OrderOfActions
 INVARIANT ReturnIffAccepted
